@@ -225,7 +225,7 @@ def gen_plumbing_case(rng, idx):
     """ego (unrotated, away from the origin) + up to 4 targets in distinct directions, each optionally
     behind a cube that is occluding or not; each target carries one built-in visibility demand."""
     ex, ey = 100.0, 50.0
-    n = rng.randint(1, 4)
+    n = rng.choice([1, 1, 2, 3])
     dirs = rng.sample(range(6), n)
     lines = ["workspace = Workspace(BoxRegion(position=(100, 50, 0), dimensions=(200, 200, 200)))",
              f"ego = new Object at ({ex}, {ey}, 0)"]
@@ -233,7 +233,7 @@ def gen_plumbing_case(rng, idx):
     obs, non, rv, ops = [], [], [], []
     walls = {}
     reqs = []
-    forms = ["visible", "visible", "notvisible", "requireVisible", "op", "opnot", "opvec"]
+    forms = ["visible", "visible", "notvisible", "requireVisible", "requireVisible", "op", "opnot", "opvec"]
     for k, dk in enumerate(dirs):
         th = dk * math.pi / 3 + 0.2
         tx, ty = ex + 20 * math.cos(th), ey + 20 * math.sin(th)
@@ -253,10 +253,10 @@ def gen_plumbing_case(rng, idx):
             rv.append(tid)
         lines.append(f"t{k} = " + spec)
         objs.append(dict(occluding=tocc))
-        wall = rng.random() < 0.75
+        wall = rng.random() < 0.85
         wid = None
         if wall:
-            wocc = rng.random() < 0.7
+            wocc = rng.random() < 0.5
             wid = len(objs)
             lines.append(f"w{k} = new Object at ({wx:.6f}, {wy:.6f}, 0), with width 5, with length 5, with height 5, with occluding {wocc}")
             objs.append(dict(occluding=wocc))
@@ -464,7 +464,7 @@ def main():
     exe = common.build_ocaml(PID)
     quick = c.tier == "quick"
     rng = c.rng
-    n_pt, n_ob, n_pl = (1000, 140, 24) if quick else (40000, 4000, 300)
+    n_pt, n_ob, n_pl = (1000, 140, 40) if quick else (40000, 4000, 300)
 
     pts = [gen_point_case(rng, i) for i in range(n_pt)]
     # the recorded witness of F14 and friends first
